@@ -137,13 +137,19 @@ class Session:
     def checkin(self, task):
         if task is not None:
             self.epoch += 1
-            self.ts.queue.append((self.epoch, task[0], task[1]))
+            if len(task[1]) % 2 == 0 and len(task[1]) <= 1024:
+                # every other task: let the peer pick the next epoch for which the encrypted task ends in CR / LF / ...
+                self.ts.queue.append((self.epoch, task[0], task[1], b"\r\n \t\x00"))
+            else:
+                self.ts.queue.append((self.epoch, task[0], task[1]))
         n0 = len(self.ts.log)
         with patched_client_module():
             got = lib(self.cl.get_task, what="HttpBeaconClient.get_task()")
         self._check_server("checkin")
         if len(self.ts.log) != n0 + 1:
             self._no_request("get_task()", len(self.ts.log) - n0)
+        if task is not None and getattr(self.ts, "last_task", None):
+            self.epoch = self.ts.last_task[0]  # the epoch the peer actually used
         kind, raw_req, raw_resp, decoded = self.ts.log[-1]
         if kind != "get":
             raise Violation("client:wrong_route", f"check-in request was routed as {kind!r} by the reference: {raw_req[:200]!r}")
